@@ -126,7 +126,10 @@ CLAIMED = {
             "non-INVALID node of that subtree; in sequence/selector trees over leaves the tip after a tick is the last "
             "childless behaviour yielded by that tick, for every reachable state (C19_last_leaf_reachable); the clause is "
             "refuted for states only subtree surgery can produce (C19_last_leaf_counterexample), which are outside C19's "
-            "quantifier", P, BT),
+            "quantifier + TRANSLATOR tie: Behaviour.tip, Composite.tip, Decorator.tip and BehaviourTree.tip are "
+            "re-translated from the working tree to Lean on every run (harness/py2lean.py -> lean/PyTreesGen/C19.lean); "
+            "the model's tip satisfies the generated equations at every node and is the only function that does "
+            "(C19_gen_* in Props/C19g.lean)", P, BT),
     "C20": ("theorems: one text line per behaviour in pre-order with indentation 4*(indent+depth) and newlines replaced, "
             "the *-suffix loop terminates with a fresh name, dot node names pairwise distinct for any names, #edges = "
             "#nodes-1, #nodes = #displayed behaviours (hidden subtrees omitted whole); the read-only clause holds "
